@@ -1175,7 +1175,7 @@ func runHistory(c *vf.Ctx, bs *bset, i int, rng *rand.Rand, nops int) {
 }
 
 func run(c *vf.Ctx) {
-	nhist := c.N(800, 10000)
+	nhist := c.N(600, 7000)
 	nops := c.N(40, 80)
 	workers := 8
 	c.Set("histories", nhist)
@@ -1202,7 +1202,7 @@ func run(c *vf.Ctx) {
 		bs.close()
 	}
 	if len(vkSeen) > 0 {
-		c.Set("violation_key_counts", vkSeen)
+		c.Set("reported_keys_incl_known", vkSeen)
 	}
 	c.Assume("a Go map with sorted keys is the reference ordered map")
 	c.Assume("backends are re-used between histories after deleting every key; a history's outcome is assumed independent of the deleted residue")
